@@ -191,9 +191,25 @@ class Grammar:
         nonterminal, alternative j parses it again: the work doubles with every level of nesting."""
         reach = self.reaches()
         out = []
+        def choices(e, top=True):
+            # every maximal ordered choice inside the expression (also under a repetition / option / sequence)
+            k = e['k']
+            if k == 'choice':
+                yield e
+                for b in self.branches(e):
+                    for x in choices(b):
+                        yield x
+                return
+            for key in ('a', 'b', 'e'):
+                if isinstance(e.get(key), dict):
+                    for x in choices(e[key]):
+                        yield x
+        work = []
         for name in self.order:
-            r = self.rules[name]
-            br = self.branches(r['expr'])
+            for ci, ch in enumerate(choices(self.rules[name]['expr'])):
+                work.append((name, ci, ch))
+        for name, ci, ch in work:
+            br = self.branches(ch)
             if len(br) < 2:
                 continue
             pres = [self.prefixes(b, length, depth) for b in br]
